@@ -24,7 +24,14 @@ let cmd_roundtrip r =
   | None -> "ERR"
   | Some y -> Printf.sprintf "OK %d %s" (List.length c.cdata) (pr_list tok_of_q y)
 
+(* shape.ttreg <raster> <tt list> -> 1 if the time vector is stored without a time shape (Model/TimeShape.v) *)
+let cmd_ttreg r =
+  let raster = rd_q r in
+  let tt = rd_list rd_q r in
+  pr_bool (tt_regular raster tt)
+
 let () =
   Driver.register "shape.compress" cmd_compress;
   Driver.register "shape.decompress" cmd_decompress;
-  Driver.register "shape.roundtrip" cmd_roundtrip
+  Driver.register "shape.roundtrip" cmd_roundtrip;
+  Driver.register "shape.ttreg" cmd_ttreg
